@@ -111,6 +111,11 @@ def close(a, b):
 THRESH = Fraction(1, 10 ** 12)     # the native StateVector drops a term whose |amplitude|^2 is not above 1e-12
 
 
+def mixed_mode(state):
+    """a mode of the (described) state holds annotated and plain photons"""
+    return any(m["g"] and m["p"] > 0 for m in state)
+
+
 def sv_compare(terms, real, scaled):
     """the model's formal sum against the amplitudes the real vector holds → True / False / None (undecided: equal
     states whose addends are near the native threshold add up in an order-dependent way).  `scaled`: the real vector
@@ -118,6 +123,12 @@ def sv_compare(terms, real, scaled):
     per = {}
     for re_, im_, st in terms:
         per.setdefault(key(st), []).append((unrat(re_), unrat(im_)))
+    if len(per) > 1 and any(mixed_mode(st) for _, _, st in terms):
+        # native quirk (exqalibur, outside /repo): a state one of whose modes holds annotated AND plain photons
+        # compares equal to states that replace the plain photon by an annotated one (`|{_:2}1> == |{_:1}{_:2}>`)
+        # while their hashes differ: whether two such terms of a vector merge depends on the insertion order,
+        # already when the vector is built with `+`.  Only damaged texts get here (the generator never mixes).
+        return None
     tot = {}
     for k, adds in per.items():
         small = [a * a + b * b <= THRESH * 100 for a, b in adds]
